@@ -86,30 +86,41 @@ theorem C01_partial_history (env : Env) (cs : List (Cmd User.Op))
   have := undo_all_returns_to_base (sys env) (fun w => w) _ (laws env) _ c hr
   rw [this, hb]
 
-/-! Outside the domain the model (faithful to the engine) does violate the property: finding F01c.
-    Sheet with column 3 hidden and 200 px wide; `set_columns_width(0, 3, 3, 50)`; undo stores 0
-    because `get_column_width` answers 0 for a hidden column. -/
+/-! Outside the domain the model (faithful to the engine) does violate the property: finding F01d.
+    A second sheet with a hyperlink; `delete_sheet(1)`; the undo arm of `Diff::DeleteSheet` copies
+    rows, cols, grid lines, frozen panes, state and colour back, but not `links`. -/
 
 def envEx : Env :=
-  { validTz := fun s => s == "UTC", validLocale := fun s => s == "en", upper := String.toUpper }
+  { validTz := fun s => s == "UTC", validLocale := fun s => s == "en", upper := fun s => s }
 
-def hiddenBook : Book :=
+def linkedBook : Book :=
   { Book.init with sheets :=
-      [{ emptySheet "Sheet1" 1 with colAt := upd (fun _ => ColView.default) 3 ⟨200, true, none⟩ }] }
+      [emptySheet "Sheet1" 1,
+       { emptySheet "Sheet2" 2 with links := [(1, 1, "https://example.com")] }] }
 
 theorem C01_full_false : ¬ C01_full envEx := by
   intro h
-  have h1 := h hiddenBook (.setColumnsWidth 0 3 3 50)
-    [.setColumnWidth 0 3 0 50] (by decide) rfl
-  have h2 : ((applyBack envEx (doOp envEx hiddenBook (.setColumnsWidth 0 3 3 50)).w
-      [.setColumnWidth 0 3 0 50]).w.sheets.map fun s => (s.colAt 3).width) = [0] := by decide
+  have h1 := h linkedBook (.deleteSheet 1)
+    [.deleteSheet 1 { emptySheet "Sheet2" 2 with links := [(1, 1, "https://example.com")] }]
+    (by decide) rfl
+  have h2 : ((applyBack envEx (doOp envEx linkedBook (.deleteSheet 1)).w
+      [.deleteSheet 1 { emptySheet "Sheet2" 2 with links := [(1, 1, "https://example.com")] }]).w.sheets.map
+        fun s => s.links.length) = [0, 0] := by decide
   rw [h1.2] at h2
   exact absurd h2 (by decide)
+
+/-- the hidden-column resize (fixed finding F01c) is now inside the domain and undone exactly -/
+def hiddenBook : Book :=
+  { Book.init with sheets :=
+      [{ emptySheet "Sheet1" 1 with colAt := upd (fun _ => ColView.default) 3 ⟨200, true, none⟩ }] }
 
 /-! non-vacuity of `C01_partial` -/
 example : dom envEx Book.init (.setColumnsWidth 0 2 5 40) = true := by decide
 example : (doOp envEx Book.init (.setColumnsWidth 0 2 5 40)).pushed.map List.length = some 4 := by
   decide
-example : dom envEx hiddenBook (.setColumnsWidth 0 3 3 50) = false := by decide
+example : dom envEx hiddenBook (.setColumnsWidth 0 3 3 50) = true := by decide
+example : dom envEx linkedBook (.deleteSheet 1) = false := by decide
+example : ((applyBack envEx (doOp envEx hiddenBook (.setColumnsWidth 0 3 3 50)).w
+    [.setColumnWidth 0 3 200 50]).w.sheets.map fun s => (s.colAt 3).width) = [200] := by decide
 
 end IronCalc.User.C01
